@@ -561,7 +561,48 @@ def k_cli(run, case):
     run.hit("evo_rpe selections judged against the command line's delta / tolerance")
 
 
-KINDS = {"grid": k_grid, "random": k_random, "gridsel": k_replay_grid, "reuse": k_reuse,
+def k_threads(run, case):
+    """
+    Pair selection for several sequences at once (one thread per sequence, as a thread pool over
+    a data set does): every selection equals the selection of the same call made alone.  The
+    serial answers are the ones the other kinds judge against the statement.
+    """
+    from vmon import threads
+    from evo.core import metrics
+    from evo.core.units import Unit
+    rng = run.rng(case)
+
+    def make_job(seed):
+        r = np.random.default_rng(seed)
+        n = int(r.integers(30, 200))
+        arr = gen.traj_arrays(r, n)
+        poses = poses_from(arr["p"], arr["R"])
+        seg = np.linalg.norm(np.diff(arr["p"], axis=0), axis=1)
+        ang = [rm.rot_angle(arr["R"][k].T @ arr["R"][k + 1]) for k in range(n - 1)]
+        calls = []
+        for unit, U, base in (("f", Unit.frames, 3.0), ("m", Unit.meters, float(np.mean(seg)) * 3),
+                              ("r", Unit.radians, float(np.mean(ang)) * 3),
+                              ("d", Unit.degrees, math.degrees(float(np.mean(ang))) * 3)):
+            for ap in (False, True):
+                calls.append((base if unit != "f" else int(base), U, 0.2, ap))
+
+        def job():
+            out = []
+            for (delta, U, tol, ap) in calls:
+                try:
+                    out.append([list(map(int, pr)) for pr in metrics.id_pairs_from_delta(poses, delta, U, tol, ap)])
+                except Exception as e:
+                    out.append("raised " + type(e).__name__)
+            return out
+        return job
+
+    jobs = [make_job(int(rng.integers(2**31))) for _ in range(4)]
+    run.seen(case, core.digest("threads", case["rs"]), cls=["concurrent use: 4 threads"], sample={"selections_per_thread": 8})
+    with core.quiet():
+        threads.check(run, case, jobs, "pair selection", "threads:pair-selection-not-reentrant")
+
+
+KINDS = {"threads": k_threads, "grid": k_grid, "random": k_random, "gridsel": k_replay_grid, "reuse": k_reuse,
          "metric_reuse": k_metric_reuse, "cli": k_cli}
 
 
@@ -589,11 +630,13 @@ def main(run):
     for i in run.mine({"quick": 60, "thorough": 1500}[run.tier]):
         k_cli(run, run.case("cli", i, force_tol=[0.0, 0.05, 0.0, 0.3][i % 4], force_all_pairs=bool(i % 3 != 0),
                             force_unit="mrdf"[(i // 2) % 4]))
+    for i in run.mine({"quick": 16, "thorough": 300}[run.tier]):
+        k_threads(run, run.case("threads", i))
     # sizes beyond typical block / chunk sizes (1024, 2048): a few in the quick tier, more in thorough
     for i in run.mine({"quick": 8, "thorough": 48}[run.tier]):
         u, ap = [("r", 1), ("d", 1), ("m", 1), ("f", 1), ("r", 1), ("m", 0), ("d", 0), ("d", 1)][i % 8]
         k_random(run, run.case("random", 10**6 + i, big=True, unit=u, all_pairs=bool(ap)))
-    run.need("evo_rpe selections judged against the command line's delta / tolerance", "re-used metric evaluates the pairs selected on the current poses", "pairs satisfy 0 <= i < j < N", "frames: exactly the delta pairs",
+    run.need("concurrent rounds: pair selection", "evo_rpe selections judged against the command line's delta / tolerance", "re-used metric evaluates the pairs selected on the current poses", "pairs satisfy 0 <= i < j < N", "frames: exactly the delta pairs",
              "meters consecutive: j is the first pose reaching delta since i",
              "meters consecutive: delta hit exactly by a selected pair",
              "angle consecutive: j is the first pose reaching delta since i",
